@@ -257,8 +257,9 @@ struct DynClass {
             if (lifetime && derived && work.chance(100)) { p.item('O', work.coin() ? "Z destroy-source" : (work.coin() ? "Z churn" : "Z query-copy")); continue; }
             if (second && use.chance(150)) { if (use.chance(700)) p.item('O', "M " + key_text(dk()) + " " + std::to_string(next_value++)); else p.item('O', "N " + key_text(dk())); continue; }
             if (use.chance(25)) { p.item('O', "A " + key_text(dk()) + " " + key_text(dk())); continue; }
+            if (!lifetime && use.chance(30)) { p.item('O', "V"); continue; }
             if (use.chance(25)) { p.item('O', "U " + key_text(dk()) + " " + std::to_string(1 + use.below(5)) + " " + std::to_string(use.below(8))); continue; }
-            if (r < w_ins) p.item('O', "I " + key_text(dk()) + " " + std::to_string(next_value++));
+            if (r < w_ins) p.item('O', "I " + key_text(dk()) + " " + std::to_string(next_value++) + (use.coin() ? " 1" : ""));
             else if (r < w_ins + w_erase) p.item('O', "E " + key_text(dk()));
             else switch (work.below(7)) {
                 case 0: p.item('O', "F " + key_text(dk())); break;
@@ -560,7 +561,8 @@ struct DynClass {
                 K k = (K) o.a[0]; V v = VM::make((uint64_t) o.a[1]);
                 if (is_reserved(k)) continue;
                 if (erased_once.count(k) && !model.count(k)) ++reinserts;
-                cur->insert_or_assign(k, v);
+                if (o.a.size() >= 3 && o.a[2] != 0) cur->insert_or_assign(k, V(v)); // the mapped value arrives as a temporary
+                else cur->insert_or_assign(k, v);
                 model[k] = v;
                 after_update();
                 if (out.ok && do_point) check_find(*cur, model, k, out, tr);
@@ -617,6 +619,18 @@ struct DynClass {
                 if (out.ok) check_traversal(*cur, model, saved, mi, (size_t) o.a[2] + 2, "copy of an advanced iterator (second walker, after the first one moved on)", out, tr);
                 if (out.ok) check_traversal(*cur, model, it, mi, 1, "the original iterator after its copies were advanced", out, tr);
                 st.inc("steps.iterator_copies");
+            } else if (o.kind == "V") {
+                // snapshot: a copy taken at this moment is a container in its own right (same oracles), then dropped
+                if (!src_usable) continue;
+                if constexpr (std::is_copy_constructible_v<Dyn>) {
+                    Dyn snap(*cur);
+                    st.inc("steps.snapshot_copy");
+                    Outcome o2;
+                    if (do_shape) check_shape(snap, cap, env, o2, st, tr);
+                    if (o2.ok && (do_point || do_trav)) for (K k : domain) { check_find(snap, model, k, o2, tr); if (!o2.ok) break; }
+                    if (o2.ok && do_trav) check_traversal(snap, model, snap.begin(), model.begin(), SIZE_MAX, "begin()..end()", o2, tr);
+                    if (!o2.ok) out.fail(o2.clause, "snapshot copy of the container: " + o2.detail);
+                }
             } else if (o.kind == "A" && o.a.size() >= 2) {
                 // the value argument refers to an element of the container itself
                 if (!src_usable) continue;
